@@ -12,6 +12,11 @@ Judge(e) ==
     [] e.op = "nextperm" -> NoRaise(e, IF e.obs # NextPerm(e.l) THEN <<C("successor", NextPerm(e.l))>> ELSE <<>>)
     [] e.op = "combink"  -> NoRaise(e, IF e.obs # Combinations(e.l, e.p) THEN <<C("combinations", Combinations(e.l, e.p))>> ELSE <<>>)
     [] e.op \in {"exactsum", "dynprog"} ->
+         IF Len(e.items) > 14                     \* long lists: existence by the reachable-sums recurrence; minimality is not judged
+         THEN NoRaise(e, IF ~SolvableDP(e.items, e.s) THEN (IF e.kind # "fail" THEN <<C("must-report-failure", "no sub-collection sums to the target")>> ELSE <<>>)
+                         ELSE IF e.kind # "list" THEN <<C("must-return-a-sub-collection", e.s)>>
+                         ELSE IF ~AnswerOk(e.items, e.s, e.obs) THEN <<C("answer-is-a-sub-collection-with-the-sum", e.s)>> ELSE <<>>)
+         ELSE
          NoRaise(e, IF ~Solvable(e.items, e.s)
                     THEN (IF e.kind # "fail" THEN <<C("must-report-failure", "no sub-collection sums to the target")>> ELSE <<>>)
                     ELSE IF e.kind # "list" THEN <<C("must-return-a-sub-collection", [min |-> MinCard(e.items, e.s)])>>
